@@ -220,7 +220,35 @@ func execRun(t *testing.T, rs RunSpec, keepTrace bool) *Result {
 		res = &Result{RunSpec: rs}
 		execRunInner(t, rs, keepTrace, res)
 	}()
-	return <-ch
+	if workerHung {
+		return &Result{RunSpec: rs, Abort: "not executed: an earlier run of this worker process never finished"}
+	}
+	// real-time watchdog: a goroutine of the code under test that blocks outside the simulator's
+	// seams (for example on a lock inside a dependency that another goroutine holds across a
+	// simulated write) keeps the bubble from ever becoming quiescent; such a run cannot be
+	// continued or unwound, so the worker reports it and stops
+	tm := time.NewTimer(RunWallLimit)
+	defer tm.Stop()
+	select {
+	case r := <-ch:
+		return r
+	case <-tm.C:
+		workerHung = true
+		return &Result{RunSpec: rs, Abort: fmt.Sprintf("run did not finish within %s of real time (watchdog): a goroutine of the code under test is blocked outside the simulator's seams", RunWallLimit)}
+	}
+}
+
+// RunWallLimit bounds the real time of one run; workerHung is set once a run exceeded it.
+var (
+	RunWallLimit = runWallLimitFromEnv()
+	workerHung   bool
+)
+
+func runWallLimitFromEnv() time.Duration {
+	if d, err := time.ParseDuration(os.Getenv("VSIM_RUN_WALL")); err == nil && d > 0 {
+		return d
+	}
+	return 150 * time.Second
 }
 
 func execRunInner(t *testing.T, rs RunSpec, keepTrace bool, res *Result) {
@@ -404,7 +432,7 @@ func shrink(t *testing.T, r *Result, budget int) *Result {
 	bs, br := append([]int{}, r.SpecOut...), append([]int{}, r.RunOut...)
 	tries := 0
 	try := func(s, rn []int) bool {
-		if tries >= budget {
+		if tries >= budget || workerHung {
 			return false
 		}
 		tries++
